@@ -118,11 +118,19 @@ func (c *catalogClass_[K, V]) Extract(
 	keys Sequential[K],
 ) CatalogLike[K, V] {
 	var result = c.Make()
+	var present = map[K]bool{}
+	var existing = catalog.GetKeys().GetIterator()
+	for existing.HasNext() {
+		present[existing.GetNext()] = true
+	}
 	var iterator = keys.GetIterator()
 	for iterator.HasNext() {
 		var key = iterator.GetNext()
-		var value = catalog.GetValue(key)
-		result.SetValue(key, value)
+		if present[key] {
+			// Only the associations that the catalog contains are extracted.
+			var value = catalog.GetValue(key)
+			result.SetValue(key, value)
+		}
 	}
 	return result
 }
